@@ -1302,3 +1302,99 @@ package exec
 //@   ensures $HS3A$                                                           @spec-ascending
 //@   ensures $HS4$                                                            @same-members
 //@   ensures $HPOSTV$                                                         @value-is-Sem
+
+//@ func leftRightDependentResult(context, expr) (err)
+//@   property C01 C02 C08 C13 C15 C18
+//@   uses sem
+//@   requires $HPRE$ && nntc($B$) == 2
+//@   requires nt($B$) == NT_RelativeLocationPathWithStep || nt($B$) == NT_PathExprFilterWithPath || nt($B$) == NT_StepWithAxisAndNodeTest || nt($B$) == NT_NodeTestAndPredicate || nt($B$) == NT_StepWithAxisAndNodeTestAndPredicate || nt($B$) == NT_StepWithPredicateWithAnotherPredicate
+//@   modifies context.result
+//@   ensures $HPOSTE$                                                         @error-iff-specified
+//@   ensures $HPOSTV$                                                         @value-is-Sem
+//@   loop 0
+//@     invariant 0 - 1 <= #k && #k < nntc($B$)
+//@     invariant len(children) == #k + 1 && len(children) <= cap(children) && fresh(children)
+//@     invariant forall i Int :: 0 <= i && i <= #k ==> children[i] != nil && fresh(children[i]) && wf(children[i]) && deref(children[i]) == ntchild($B$, i)
+//@     decreases nntc($B$) - #k
+//@   loop 1
+//@     invariant 0 - 1 <= #k && #k <= 0 && 0 - 1 <= #outer && #outer + 1 < nntc($B$)
+//@     invariant len(children) == #outer + #k + 2 && len(children) <= cap(children) && fresh(children)
+//@     invariant forall i Int :: 0 <= i && i <= #outer + #k + 1 ==> children[i] != nil && fresh(children[i]) && wf(children[i]) && deref(children[i]) == ntchild($B$, i)
+//@     invariant forall i Int :: 0 <= i && i <= #outer ==> children[i] != addrof_c
+//@     invariant #k == 0 ==> children[#outer + 1] == addrof_c
+//@     decreases 1 - #k
+
+//@ macro GATHER0 = 0 - 1 <= #k && #k < nntc($B$) && len(children) == #k + 1 && len(children) <= cap(children) && fresh(children) && (forall i Int :: 0 <= i && i <= #k ==> children[i] != nil && fresh(children[i]) && wf(children[i]) && deref(children[i]) == ntchild($B$, i))
+//@ macro GATHER1 = 0 - 1 <= #k && #k <= 0 && 0 - 1 <= #outer && #outer + 1 < nntc($B$) && len(children) == #outer + #k + 2 && len(children) <= cap(children) && fresh(children) && (forall i Int :: 0 <= i && i <= #outer + #k + 1 ==> children[i] != nil && fresh(children[i]) && wf(children[i]) && deref(children[i]) == ntchild($B$, i)) && (forall i Int :: 0 <= i && i <= #outer ==> children[i] != addrof_c) && (#k == 0 ==> children[#outer + 1] == addrof_c)
+
+//@ func execAbbreviatedAbsoluteLocationPath(context, expr) (err)
+//@   property C01 C13 C15
+//@   uses sem treelemmas
+//@   requires $HPRE$ && nt($B$) == NT_AbbreviatedAbsoluteLocationPath
+//@   modifies context.result
+//@   hint execContext#1 aeq(absv(context.result), ASet(selSeq(5, qsingle(context.root))))
+//@   ensures $HPOSTE$                                                         @error-iff-specified
+//@   ensures $HPOSTV$                                                         @value-is-Sem
+//@   loop 0
+//@     invariant #k == 0 - 1
+//@     invariant aeq(absv(context.result), ASet(selSeq(5, qsingle(context.root)))) && resok(context.result) && wf(context.result)
+//@     decreases nntc($B$) - #k
+
+//@ func execAbbreviatedRelativeLocationPath(context, expr) (err)
+//@   property C01 C13 C15 C02
+//@   uses sem treelemmas
+//@   requires $HPRE$ && (nt($B$) == NT_AbbreviatedRelativeLocationPath || nt($B$) == NT_PathExprFilterWithAbbreviatedPath)
+//@   modifies context.result
+//@   hint execContext#2 aeq(absv(context.result), ASet(selSeq(5, aset($SEM0$))))
+//@   ensures $HPOSTE$                                                         @error-iff-specified
+//@   ensures $HPOSTV$                                                         @value-is-Sem
+//@   loop 0
+//@     invariant $GATHER0$
+//@     decreases nntc($B$) - #k
+//@   loop 1
+//@     invariant $GATHER1$
+//@     decreases 1 - #k
+
+//@ func execFilterExprWithPredicate(context, expr) (err)
+//@   property C02 C03 C13 C15
+//@   uses sem
+//@   requires $HPRE$ && nt($B$) == NT_FilterExprWithPredicate
+//@   modifies context.result
+//@   hint execContext#2 isASet($SEM0$) ==> isASet(absv(context.result)) && sascq(aset(absv(context.result))) && sameset(aset(absv(context.result)), ascSeq(aset($SEM0$)))
+//@   hint execContext#2 aeq(absv(context.result), (if isASet($SEM0$) then ASet(ascSeq(aset($SEM0$))) else $SEM0$))
+//@   ensures $HPOSTE$                                                         @error-iff-specified
+//@   ensures $HPOSTV$                                                         @value-is-Sem
+//@   loop 0
+//@     invariant $GATHER0$
+//@     decreases nntc($B$) - #k
+//@   loop 1
+//@     invariant $GATHER1$
+//@     decreases 1 - #k
+
+//@ macro PC = ntchild($B$, 0)
+//@ macro PQ = old(seqOf(nodeSet))
+//@ macro PKEEP(i) = predKeep($PC$, expr.lex, context.root, $PQ$, context.ContextSettings, i)
+//@ macro PERR(i) = semerr($PC$, expr.lex, context.root, ASet(qsingle(qat($PQ$, i))), i, qlen($PQ$), context.ContextSettings)
+
+//@ func execPredicate(context, expr) (err)
+//@   property C02 C03 C13 C15
+//@   uses sem
+//@   requires $HPRE$ && nt($B$) == NT_Predicate
+//@   modifies context.result
+//@   hint leftOnlyIndependentResult#1 aeq(absv(addrof_nextContext.result), ASet(qsingle(qat($PQ$, #outer + 1))))
+//@   ensures $HPOSTE$                                                         @error-iff-specified
+//@   ensures $HS1$                                                            @node-set
+//@   ensures err == nil && sascq(aset(old(absv(context.result)))) ==> sascq($RSEQ$) && sascq(aset($SEMV$))      @ascending-kept
+//@   ensures err == nil && sdescq(aset(old(absv(context.result)))) ==> sdescq($RSEQ$) && sdescq(aset($SEMV$))   @descending-kept
+//@   ensures $HS4$                                                            @same-members
+//@   ensures $HPOSTV$                                                         @value-is-Sem
+//@   loop 0
+//@     invariant 0 - 1 <= #k && #k < len(nodeSet) || (len(nodeSet) == 0 && #k == 0 - 1)
+//@     invariant context.result == old(context.result) && nodes(nodeSet) && wf(nodeSet) && seqOf(nodeSet) == $PQ$
+//@     invariant fresh(nextResult) && nodes(nextResult) && len(nextResult) <= cap(nextResult)
+//@     invariant forall n Cursor :: mem(nextResult, n) ==> exists i Int :: 0 <= i && i <= #k && qat($PQ$, i) == n && $PKEEP(i)$
+//@     invariant forall i Int :: 0 <= i && i <= #k && $PKEEP(i)$ ==> mem(nextResult, qat($PQ$, i))
+//@     invariant forall i Int :: 0 <= i && i <= #k ==> !$PERR(i)$
+//@     invariant sascq($PQ$) ==> sasc(nextResult) && (forall j Int :: 0 <= j && j < len(nextResult) && #k >= 0 ==> pos(nextResult[j]) <= pos(qat($PQ$, #k)))
+//@     invariant sdescq($PQ$) ==> sdesc(nextResult) && (forall j Int :: 0 <= j && j < len(nextResult) && #k >= 0 ==> pos(nextResult[j]) >= pos(qat($PQ$, #k)))
+//@     decreases len(nodeSet) - #k
